@@ -1,6 +1,7 @@
 package c05
 
 import (
+	"strconv"
 	"strings"
 	"testing"
 
@@ -9,11 +10,23 @@ import (
 	"verifharness/vkit"
 )
 
-var coldScenarios = []string{"parse rule=0 lower", "parse rule=1 lower", "parse rule=2 lower", "parse rule=3 lower", "parse rule=2 upper", "parse rule=2 urn bytes", "parse rule=0 invalid", "unmarshaltext upper", "format first", "parse rule=2 garbage"}
+var coldScenarios = []string{"parse rule=0 lower", "parse rule=1 lower", "parse rule=2 lower", "parse rule=3 lower", "parse rule=2 upper", "parse rule=2 urn bytes", "parse rule=0 invalid", "unmarshaltext upper", "format first", "parse rule=2 garbage", "first parses under MaxInputLength 1", "first parses under MaxInputLength 36", "first parses under MaxInputLength 44", "first parses under MaxInputLength 0"}
 
 const coldText = "123e4567-e89b-12d3-a456-426614174000"
 
 func coldFirst(scenario string) {
+	if strings.HasPrefix(scenario, "first parses under MaxInputLength ") {
+		// the limit is a setting: the process starts parsing under another one, which is then put back
+		lim, _ := strconv.Atoi(strings.TrimPrefix(scenario, "first parses under MaxInputLength "))
+		old := uu.MaxInputLength
+		uu.MaxInputLength = lim
+		_, _ = uu.DefaultParser(coldText, 0)
+		_, _ = uu.DefaultParser([]byte("urn:uuid:"+coldText), 0)
+		var id uu.ID
+		_ = id.UnmarshalText([]byte(strings.ToUpper(coldText)))
+		uu.MaxInputLength = old
+		return
+	}
 	switch scenario {
 	case "parse rule=0 lower":
 		_, _ = uu.DefaultParser(coldText, 0)
